@@ -299,6 +299,82 @@ theorem ask_permission_refuses_directory (fs : FS) (a : Args) (d : Path) (hacc :
     · rw [hdd] at hd; exact absurd hd (by decide)
   · simp [hacc, h2]
 
+/-! ### the interactive receiver: whatever is answered at `ok? (Y/n):`, an existing directory is refused
+
+The prompt's answer is an input like the offered name: `a.answer` below is ANY string (`y`, `Y`, just Enter, `n`, …), and
+`s.answer` is the answer of one receive of a sequence.  These theorems are the end-to-end form of
+`ask_permission_refuses_directory`: the refusal raised by `_remove_existing` behind the prompt REACHES the caller — the
+offer is over, nothing is opened, removed, created or unpacked. -/
+
+/-- **a file offer that is accepted did not name a directory**: whenever `_handle_file` returns (any options, any answer,
+    any name), its destination was not a directory — nor a link to one — when the offer arrived -/
+theorem accepted_file_destination_was_no_directory (fs fs' : FS) (a : Args) (name d t : Path)
+    (h : handleFile fs a name = (fs', .ok (d, t))) : fs.isDir d = false :=
+  handleFile_ok_not_dir h
+
+/-- … and the same for a directory offer: `_handle_directory` never hands an existing directory to the unpacking -/
+theorem accepted_directory_destination_was_no_directory (fs fs' : FS) (a : Args) (mode name d : Path)
+    (h : handleDirectory fs a mode name = (fs', .ok d)) : fs.isDir d = false :=
+  handleDirectory_ok_not_dir h
+
+/-- **existing directory ⇒ the whole offer fails and nothing is touched, whatever the user answers.**  Without
+    `--accept-file`: if the destination `_decide_destname` settles on is an existing directory (`-o DIR` with a same-named
+    sub-directory, or a sender-chosen `..`, `.`, `x/.`, trailing slash — see `output_file_existing_dir`), then for every
+    answer at the prompt the file offer ends in an error with the file system exactly as it was. -/
+theorem existing_directory_destination_fails_untouched (fs : FS) (a : Args) (name d : Path) (dropped : Bool)
+    (hacc : a.acceptFile = false) (hd : (decideDest fs a name).2 = .ok d) (hdir : fs.isDir d = true) :
+    ∃ e, offerFile fs a name dropped = (fs, .error e) := by
+  have hdd : decideDest fs a name = (fs, .ok d) :=
+    Prod.ext (decideDest_noaccept (fs := fs) name hacc) hd
+  have hh : ∃ e, handleFile fs a name = (fs, .error e) := by
+    unfold handleFile
+    rw [hdd]
+    simp only [askPermission_dir hacc hdir]
+    cases freeSpaceProbe fs a d with
+    | error e => exact ⟨e, rfl⟩
+    | ok u => exact ⟨.transferRejected, rfl⟩
+  obtain ⟨e, he⟩ := hh
+  exact ⟨goErr e, by simp only [offerFile, he]⟩
+
+/-- … and the directory offer likewise: nothing is unpacked into the directory the user already has -/
+theorem existing_directory_destination_fails_untouched_dir (fs : FS) (a : Args) (mode name d : Path) (dropped extracted : Bool)
+    (hacc : a.acceptFile = false) (hd : (decideDest fs a name).2 = .ok d) (hdir : fs.isDir d = true) :
+    ∃ e, offerDirectory fs a mode name dropped extracted = (fs, .error e) := by
+  have hdd : decideDest fs a name = (fs, .ok d) :=
+    Prod.ext (decideDest_noaccept (fs := fs) name hacc) hd
+  have hh : ∃ e, handleDirectory fs a mode name = (fs, .error e) := by
+    unfold handleDirectory
+    split
+    · exact ⟨_, rfl⟩
+    · rw [hdd]
+      simp only [askPermission_dir hacc hdir]
+      cases freeSpaceProbe fs a d with
+      | error e => exact ⟨e, rfl⟩
+      | ok u => exact ⟨.transferRejected, rfl⟩
+  obtain ⟨e, he⟩ := hh
+  exact ⟨goErr e, by simp only [offerDirectory, he]⟩
+
+/-- **receive_never_onto_existing_directory.**  One whole `cmd_receive.receive(args)` — any options, any offer, any
+    answer at the prompt: if it ends well, its destination was not a directory (nor a link to one) when it started.
+    So no receive replaces, or unpacks into, a directory the user already had. -/
+theorem receive_never_onto_existing_directory (a : Args) (fs : FS) (s : Step) (d : Path)
+    (h : (receive a fs s).2.2 = .ok d) : fs.isDir d = false := by
+  unfold receive at h
+  cases ho : s.offer with
+  | file n dr =>
+    rw [ho] at h
+    obtain ⟨fs1, t, hh⟩ := offerFile_ok h
+    exact handleFile_ok_not_dir hh
+  | dir m n dr ex =>
+    rw [ho] at h
+    obtain ⟨fs1, hh⟩ := offerDirectory_ok h
+    exact handleDirectory_ok_not_dir hh
+
+/-- … and after ANY history of receives with the same `args` object, judged on the file system as the history left it -/
+theorem every_receive_never_onto_existing_directory (a : Args) (fs : FS) (hist : List Step) (s : Step) (d : Path)
+    (h : (receive a (receives a fs hist).2.1 s).2.2 = .ok d) : (receives a fs hist).2.1.isDir d = false :=
+  receive_never_onto_existing_directory a _ s d h
+
 /-! ### never clobbers -/
 
 /-- **never_removes_dir.**  `_remove_existing` deletes only regular files, and rejects directories -/
@@ -882,5 +958,27 @@ example : (receives witnessArgs witnessFS
     = [.ok "/home/u/first.txt".toList, .error .transferError] := by decide
 example : witnessFS.isRealDir witnessArgs.cwd = true ∧
     witnessFS.isRealDir (abspath witnessArgs.proc (join2 witnessArgs.cwd dotdot)) = true := by decide
+
+/-- `cd /home/u && wormhole receive -o inbox` (no `--accept-file`), where `inbox/` and `inbox/photos/` exist -/
+def inboxFS : FS :=
+  ⟨fun p => if p = "/home/u".toList ∨ p = "/home".toList ∨ p = "/home/u/inbox".toList ∨ p = "/home/u/inbox/photos".toList
+              then some .dir
+            else if p = "/home/u/inbox/photos/keep.txt".toList ∨ p = "/home/u/notes.txt".toList then some .file else none⟩
+def inboxArgs : Args :=
+  { cwd := "/home/u".toList, outputFile := "inbox".toList, acceptFile := false, answer := "y".toList, proc := "/".toList }
+
+-- the hypotheses of `existing_directory_destination_fails_untouched` are met by the four shapes of name: a same-named
+-- sub-directory, `..` (the working directory), `sub/.` and a trailing slash (the -o directory itself) …
+example : (decideDest inboxFS inboxArgs "photos".toList).2 = .ok "/home/u/inbox/photos".toList ∧
+    inboxFS.isDir "/home/u/inbox/photos".toList = true := by decide
+example : (decideDest inboxFS inboxArgs "..".toList).2 = .ok "/home/u".toList ∧ inboxFS.isDir "/home/u".toList = true := by decide
+example : (decideDest inboxFS inboxArgs "sub/.".toList).2 = .ok "/home/u/inbox".toList := by decide
+example : (decideDest inboxFS inboxArgs "photos/".toList).2 = .ok "/home/u/inbox".toList := by decide
+-- … each is refused when the user types `y`, `Y` or just Enter (and a fresh name is accepted: the conclusion is not vacuous)
+example : ∀ ans ∈ ["y".toList, "Y".toList, [], "n".toList], ∀ nm ∈ ["photos".toList, "..".toList, "sub/.".toList, "photos/".toList, []],
+    (receive inboxArgs inboxFS ⟨ans, .dir "zipfile/deflated".toList nm false true⟩).2.2 = .error .transferError ∧
+    (receive inboxArgs inboxFS ⟨ans, .file nm false⟩).2.2 = .error .transferError := by decide
+example : (receive inboxArgs inboxFS ⟨[], .dir "zipfile/deflated".toList "x/new".toList false true⟩).2.2
+    = .ok "/home/u/inbox/new".toList := by decide
 
 end WV.Props.C05
